@@ -507,3 +507,241 @@ func ruleR21(c *Ctx) *RuleResult {
 	}
 	return r
 }
+
+// ---- R21 additions: AVL signal table, direction arguments, B-tree rebalance key and occupancy definitions ----
+
+func isDirTerm(t *Term) bool {
+	s := t.String()
+	return s == "#:1" || s == "#:-1" || s == "p:0" || s == "(neg p:0)"
+}
+
+func isChildIdxTerm(t *Term, paramOK bool) bool {
+	s := t.String()
+	if s == "#:0" || s == "#:1" || (paramOK && t.Op == "p") {
+		return true
+	}
+	if t.Op == "/" && len(t.Args) == 2 && t.Args[1].String() == "#:2" && t.Args[0].Op == "+" && t.Args[0].Args[0].String() == "#:1" && isDirTerm(t.Args[0].Args[1]) {
+		return true
+	}
+	if t.Op == "^" && len(t.Args) == 2 && t.Args[0].String() == "#:1" {
+		return isChildIdxTerm(t.Args[1], paramOK)
+	}
+	return false
+}
+
+func ruleR21b(c *Ctx) *RuleResult {
+	p := c.p
+	r := &RuleResult{Rule: "R21b", Title: "BALANCE-DEFS: AVL height signals and direction arguments, B-tree occupancy definitions and rebalance keys", Floor: 5}
+	add := func(key, clause string, fn *ssa.Function, bad []string, facts string) {
+		pos := "-"
+		if fn != nil {
+			pos = p.FuncPos(fn)
+		}
+		if fn == nil {
+			r.undecided(key, clause, pos, "anchored function not found")
+		} else if len(bad) > 0 {
+			r.bad(key, clause, pos, strings.Join(dedup(bad), "\n"))
+		} else {
+			r.ok(key, clause, pos, facts)
+		}
+	}
+	// --- AVL signal table
+	type sig struct{ zero, opposite, rotZero, rot string }
+	for nm, want := range map[string]sig{
+		"putFix":    {zero: "#:true", opposite: "#:false", rotZero: "", rot: "#:false"},
+		"removeFix": {zero: "#:false", opposite: "#:true", rotZero: "#:false", rot: "#:true"},
+	} {
+		fn := p.FuncByName("trees/avltree", nm)
+		var bad []string
+		n := 0
+		if fn != nil {
+			for _, g := range c.GC(fn).GCs {
+				if g.Exit.Op != "return" || len(g.Exit.Args) != 1 {
+					bad = append(bad, "unexpected exit")
+					continue
+				}
+				got := g.Exit.Args[0].String()
+				cs := effCallees(g)
+				isZero, isOpp := false, false
+				for _, a := range g.Guards {
+					if a.Op == "==" && len(a.Args) == 2 {
+						x, y := a.Args[0], a.Args[1]
+						bOfS := func(t *Term) bool {
+							return t.Op == "load" && t.Args[0].Op == "fa" && t.Args[0].Leaf == "b" && t.Args[0].Args[0].Op == "load" && t.Args[0].Args[0].Args[0].String() == "p:1"
+						}
+						if x.String() == "#:0" && bOfS(y) {
+							isZero = true
+						}
+						if (bOfS(x) && y.String() == "(neg p:0)") || (bOfS(y) && x.String() == "(neg p:0)") {
+							isOpp = true
+						}
+					}
+				}
+				n++
+				switch {
+				case isZero:
+					if got != want.zero {
+						bad = append(bad, fmt.Sprintf("%s: subtree was balanced (b == 0) — must return %s, returns %s", nm, want.zero, got))
+					}
+				case isOpp:
+					if got != want.opposite {
+						bad = append(bad, fmt.Sprintf("%s: subtree leaned the other way (b == -c) — must return %s, returns %s", nm, want.opposite, got))
+					}
+				case containsStr(cs, "rotate"):
+					if want.rotZero == "" || got != want.rotZero {
+						bad = append(bad, fmt.Sprintf("%s: plain rotation (taller child balanced) — the subtree height does not change, must return %s, returns %s", nm, want.rotZero, got))
+					}
+				case containsStr(cs, "singlerot") || containsStr(cs, "doublerot"):
+					if got != want.rot {
+						bad = append(bad, fmt.Sprintf("%s: single/double rotation — must return %s, returns %s", nm, want.rot, got))
+					}
+				default:
+					bad = append(bad, nm+": a path matches none of the four cases: "+trunc(g.String(), 200))
+				}
+			}
+			if n < 4 {
+				bad = append(bad, fmt.Sprintf("expected at least 4 cases, found %d", n))
+			}
+		}
+		add("avl."+nm+"-signal", "AVL height-change signal: the value "+nm+" returns tells the ancestors whether the subtree height changed; each of the four textbook cases has exactly one right answer (a wrong one leaves contents intact and lets the tree drift out of balance)", fn, bad, fmt.Sprintf("%d cases agree with the signal table", n))
+	}
+	// --- AVL direction arguments / child indices
+	{
+		var bad []string
+		ncall, nidx := 0, 0
+		var anchor *ssa.Function
+		for _, fn := range p.Funcs {
+			if fn.Pkg == nil || p.RelPkg(fn.Pkg.Pkg.Path()) != "trees/avltree" {
+				continue
+			}
+			if fn.Name() == "rotate" {
+				anchor = fn
+			}
+			paramIdx := fn.Name() == "walk1" || fn.Name() == "bottom"
+			check := func(t *Term) bool {
+				if (t.Op == "do" || t.Op == "call") && strings.HasPrefix(t.Leaf, "trees/avltree.") {
+					id := lastIdent(t.Leaf)
+					args := t.Args
+					if t.Op == "call" {
+						args = args[1:]
+					}
+					switch id {
+					case "putFix", "removeFix", "singlerot", "doublerot", "rotate":
+						ncall++
+						if len(args) == 0 || !isDirTerm(args[0]) {
+							bad = append(bad, fmt.Sprintf("%s passes the direction %s to %s — not provably ±1 (it indexes Children [2] as (c+1)/2 and is stored as a balance factor)", p.FuncKey(fn), trunc(noEpoch(args[0]), 80), id))
+						}
+					case "walk1", "bottom":
+						ncall++
+						last := args[len(args)-1]
+						if s := last.String(); s != "#:0" && s != "#:1" && !(paramIdx && last.Op == "p") {
+							bad = append(bad, fmt.Sprintf("%s passes the side %s to %s — not 0/1", p.FuncKey(fn), trunc(noEpoch(last), 80), id))
+						}
+					}
+				}
+				if t.Op == "ia" && len(t.Args) == 2 && t.Args[0].Op == "fa" && t.Args[0].Leaf == "Children" {
+					nidx++
+					if !isChildIdxTerm(t.Args[1], paramIdx) {
+						bad = append(bad, fmt.Sprintf("%s indexes Children [2] with %s — not provably 0/1", p.FuncKey(fn), trunc(noEpoch(t.Args[1]), 100)))
+					}
+				}
+				return false
+			}
+			for _, g := range c.GC(fn).GCs {
+				for _, a := range g.Guards {
+					a.any(check)
+				}
+				for _, ef := range g.Effects {
+					ef.any(check)
+				}
+				g.Exit.any(check)
+			}
+		}
+		if ncall < 10 || nidx < 10 {
+			bad = append(bad, fmt.Sprintf("expected the direction call sites and child accesses, found %d/%d", ncall, nidx))
+		}
+		add("avl.directions", "every AVL direction argument is ±1 (a constant, the caller's own direction or its negation) and every access to the two-element Children array uses 0/1, (c+1)/2 or its complement — the comparator's magnitude never reaches an index or a balance factor", anchor, bad, fmt.Sprintf("%d direction arguments, %d child accesses", ncall, nidx))
+	}
+	// --- B-tree: the key handed to rebalance belongs to the node handed to rebalance
+	{
+		var bad []string
+		n := 0
+		var anchor *ssa.Function
+		for _, fn := range p.Funcs {
+			if fn.Pkg == nil || p.RelPkg(fn.Pkg.Pkg.Path()) != "trees/btree" {
+				continue
+			}
+			if fn.Name() == "rebalance" {
+				anchor = fn
+			}
+			for _, g := range c.GC(fn).GCs {
+				for _, ef := range g.Effects {
+					nm, args, ok := effDo(ef)
+					if !ok || nm != "rebalance" || len(args) != 3 {
+						continue
+					}
+					n++
+					node, key := noEpoch(args[1]), args[2]
+					okKey := false
+					if fn.Name() == "rebalance" && key.String() == "p:2" {
+						okKey = true // the caller's key travels up unchanged when no separator was taken out
+					}
+					if key.Op == "load" && key.Args[0].Op == "fa" && key.Args[0].Leaf == "Key" {
+						e := key.Args[0].Args[0] // the entry
+						if e.Op == "load" && e.Args[0].Op == "ia" && e.Args[0].Args[0].Op == "load" && e.Args[0].Args[0].Args[0].Op == "fa" && e.Args[0].Args[0].Args[0].Leaf == "Entries" && noEpoch(e.Args[0].Args[0].Args[0].Args[0]) == node {
+							okKey = true
+						}
+					}
+					if !okKey {
+						bad = append(bad, fmt.Sprintf("%s calls rebalance(%s, key) with a key that is not read from that node's own entries: %s — the sibling lookup searches this key in the parent to find the node's slot", p.FuncKey(fn), trunc(node, 100), trunc(noEpoch(key), 160)))
+					}
+				}
+			}
+		}
+		if n < 3 {
+			bad = append(bad, fmt.Sprintf("expected at least 3 rebalance call paths, found %d", n))
+		}
+		add("btree.rebalance-key", "rebalance(node, key) is always called with a key taken from node's own entries (or the caller's key passed through): leftSibling/rightSibling locate node in its parent by searching that key", anchor, bad, fmt.Sprintf("%d call paths", n))
+	}
+	// --- B-tree occupancy definitions
+	{
+		ct := typeByKey(p, "trees/btree.Tree")
+		var bad []string
+		var anchor *ssa.Function
+		if ct != nil {
+			ms := methodsOf(p, ct)
+			anchor = ms["minChildren"]
+			M := "(load (fa:m p:0))"
+			get := func(name string) string {
+				fn := ms[name]
+				if fn == nil {
+					return "<missing>"
+				}
+				t := exprTermOf(c, fn)
+				if t == nil {
+					return "<not an expression>"
+				}
+				return t.String()
+			}
+			minC := []string{"(/ (+ #:1 " + M + ") #:2)", "(- " + M + " (/ " + M + " #:2))", "(+ (% " + M + " #:2) (/ " + M + " #:2))", "(+ (/ " + M + " #:2) (% " + M + " #:2))"}
+			if got := get("maxChildren"); got != M {
+				bad = append(bad, "maxChildren() is "+got+", expected the order m")
+			}
+			gotMin := get("minChildren")
+			if !containsStr(minC, gotMin) {
+				bad = append(bad, "minChildren() is "+gotMin+", not a recognised form of ceil(m/2) (e.g. (m+1)/2) — for even orders a different value mis-sizes every non-root node")
+			}
+			if got := get("maxEntries"); got != "(- "+M+" #:1)" {
+				bad = append(bad, "maxEntries() is "+got+", expected maxChildren()-1")
+			}
+			if got := get("minEntries"); !strings.HasPrefix(got, "(- ") || !strings.HasSuffix(got, " #:1)") || !containsStr(minC, strings.TrimSuffix(strings.TrimPrefix(got, "(- "), " #:1)")) {
+				bad = append(bad, "minEntries() is "+got+", expected minChildren()-1")
+			}
+			if got := get("shouldSplit"); got != "(< (- "+M+" #:1) (len (load (fa:Entries p:1))))" {
+				bad = append(bad, "shouldSplit(node) is "+got+", expected len(node.Entries) > maxEntries()")
+			}
+		}
+		add("btree.occupancy-defs", "the B-tree occupancy bounds are the documented ones: at most m children / m-1 keys, at least ceil(m/2) children / ceil(m/2)-1 keys; a node is split exactly when it holds more than m-1 keys", anchor, bad, "maxChildren = m, minChildren = ceil(m/2), maxEntries = m-1, minEntries = ceil(m/2)-1, shouldSplit ⇔ len > m-1")
+	}
+	return r
+}
